@@ -1,4 +1,4 @@
-\* generation, thorough tier: lists of <= 6 entries, receipts with <= 2 events and pairs of receipts, every case of the full domain
+\* generation, thorough tier: every case of MC_Commitments_big.cfg with the model's prediction
 SPECIFICATION Spec
 CONSTANTS
   MaxList = 6
